@@ -4,6 +4,7 @@ import os
 
 from hypothesis import strategies as st
 from metapype.eml import rule as R
+from vf.shipped import RULES
 from metapype.eml.exceptions import (ChildNotAllowedError, MaxOccurrenceExceededError, MetapypeRuleError,
                                      MinOccurrenceUnmetError)
 from metapype.eml.validation_errors import ValidationError as VE
@@ -33,20 +34,20 @@ META = "metadataRule@metadata"
 
 
 def rule_names():
-    return sorted(R.rules_dict) + [META]
+    return sorted(RULES) + [META]
 
 
 def alphabet(rn):
     if rn == META:
         return ["dataset", "metadata", lang.FOREIGN]
-    return lang.rule_lang(R.rules_dict, rn)[1]
+    return lang.rule_lang(RULES, rn)[1]
 
 
 def membership(rn, w):
     """-> (specified, member)"""
     if rn == META:
         return True, len(w) <= 1
-    return lang.member(R.rules_dict, rn, w)
+    return lang.member(RULES, rn, w)
 
 
 class Runner:
@@ -139,7 +140,7 @@ def classify(rn, w, specified, member):
         return "nonmember-foreign-name"
     if rn == META:
         return "nonmember-too-many"
-    spec, alpha, mixed, dfa = lang.rule_lang(R.rules_dict, rn)
+    spec, alpha, mixed, dfa = lang.rule_lang(RULES, rn)
     s = dfa.run([a if a in alpha else lang.FOREIGN for a in w])
     return "nonmember-incomplete(min)" if s in dfa.live() else "nonmember-order-or-max"
 
@@ -186,7 +187,7 @@ def plan(quick):
             tasks.append((tot / parts, ("exh", rn, p, parts, L)))
         if rn == META:
             continue
-        dfa = lang.rule_lang(R.rules_dict, rn)[3]
+        dfa = lang.rule_lang(RULES, rn)[3]
         kmax = 1 if quick else 3
         k = 0
         for kk in range(kmax, -1, -1):
@@ -228,7 +229,7 @@ def task(ctx, t):
     else:
         k = param
         L = exh_bound(len(alpha), 12000 if ctx.quick else 400000)[0]
-        dfa = lang.rule_lang(R.rules_dict, rn)[3]
+        dfa = lang.rule_lang(RULES, rn)[3]
         cover = dfa.state_cover()
         W = dfa.char_set()
         mids = [()]
@@ -266,7 +267,7 @@ def completion(rn):
     """per live state: a shortest word leading to acceptance"""
     c = _completion.get(rn)
     if c is None:
-        dfa = lang.rule_lang(R.rules_dict, rn)[3]
+        dfa = lang.rule_lang(RULES, rn)[3]
         c = {s: () for s in dfa.acc}
         changed = True
         while changed:
@@ -281,9 +282,9 @@ def completion(rn):
 
 @st.composite
 def long_words(draw):
-    names = [rn for rn in sorted(R.rules_dict) if len(alphabet(rn)) > 1]
+    names = [rn for rn in sorted(RULES) if len(alphabet(rn)) > 1]
     rn = draw(st.sampled_from(names))
-    spec, alpha, mixed, dfa = lang.rule_lang(R.rules_dict, rn)
+    spec, alpha, mixed, dfa = lang.rule_lang(RULES, rn)
     live = dfa.live()
     comp = completion(rn)
     target = draw(st.integers(0, 80))
